@@ -40,14 +40,20 @@ theorem C02_nothing_after_error (c : Cfg) (hB : 0 < c.B) (hJ : 0 < c.J) (s : St)
     ∀ r ∈ (readSeq c (read c s n).1 sizes).2, r.bytes = [] :=
   Kanzi.Reader.nothing_after_error c hB hJ s n h hcl sizes
 
-/-- C09: a stream without end marker (cut at a frame boundary or inside a frame, after any number of
-good frames) is never reported as complete: whatever the request sizes, end-of-stream is never
-returned unless an error was returned by an earlier call -/
+/-- C09 (PARTIAL): a stream without end marker (cut at a frame boundary or inside a frame, after any
+number of good frames) is never reported as complete: whatever the request sizes, end-of-stream is never
+returned unless an error was returned by an earlier call.
+PARTIAL: proved under the additional hypothesis `hne` that no frame decodes to zero bytes (the model's
+`Frame.block` comment says "non-empty" but the type does not enforce it).  Without `hne` the statement
+is FALSE for the model: B = 2, J = 1, frames = [Frame.block []] (or [Frame.oversize 0]), sizes = [1]
+gives `[ReadRes.eof]` -- see `Kanzi.Reader.no_eof_without_marker_counterexample` and the commented
+original statement in `Kanzi/Proofs/Reader.lean`. -/
 theorem C09_no_eof_without_marker (c : Cfg) (hB : 0 < c.B) (hJ : 0 < c.J) (frames : List Frame)
-    (hno : Frame.endMarker ∉ frames) (sizes : List Nat) :
+    (hno : Frame.endMarker ∉ frames)
+    (hne : ∀ f ∈ frames, f ≠ Frame.block [] ∧ f ≠ Frame.oversize 0) (sizes : List Nat) :
     ∀ k : Nat, ((readSeq c (init frames) sizes).2)[k]? = some ReadRes.eof →
       ∃ j : Nat, j < k ∧ (((readSeq c (init frames) sizes).2)[j]?.map ReadRes.isErr) = some true :=
-  Kanzi.Reader.no_eof_without_marker c hB hJ frames hno sizes
+  Kanzi.Reader.no_eof_without_marker_partial c hB hJ frames hno hne sizes
 
 /-- C05 (error position): when frame number `blocks.length + 1` fails (in or after the critical
 section) every byte ever returned belongs to the blocks before it (a prefix of their concatenation):
